@@ -1458,11 +1458,15 @@ func asUncatchableException(v interface{}) error {
 func (r *Runtime) RunProgram(p *Program) (result Value, err error) {
 	vm := r.vm
 	recursive := len(vm.callStack) > 0
+	pushed := false
 	vm.vt("ApiEnter", "RunProgram")
 	defer func() {
 		if recursive {
-			vm.sp -= 2
-			vm.popCtx()
+			// (pushCtx fails at the call depth limit: then there is nothing to undo)
+			if pushed {
+				vm.sp -= 2
+				vm.popCtx()
+			}
 		} else {
 			vm.callStack = vm.callStack[:len(vm.callStack)-1]
 			vm.vt("CtxAdj", "top")
@@ -1501,6 +1505,7 @@ func (r *Runtime) RunProgram(p *Program) (result Value, err error) {
 		vm.stack[sp+1] = nil      // 'this'
 		vm.sb = sp + 1
 		vm.sp = sp + 2
+		pushed = true
 	} else {
 		vm.callStack = append(vm.callStack, context{})
 		vm.vt("CtxAdj", "top")
